@@ -24,6 +24,9 @@ Menu       bal2 (``balance`` twice per row, vy between), agg (two aggregates, GR
            (placeholders), ent (the #entries table), oc (FROM OPEN ON .. CLOSE ON ..), ht (harness table).
            oc1..oc4 (FROM OPEN/CLOSE/CLEAR with different windows, compile point after FROM) and b*/j* (BALANCES /
            JOURNAL pairs with a compile point inside FROM) are explored as pairs only.
+           xa/xb (conn.execute()) and xc (conn.cursor().execute()): harness points between execute(), description,
+           fetchone() and fetchall() in the worker.  tx/tx2/pr/pr2/nt: scans of #transactions / #prices / #notes, with a
+           serial re-run after the concurrent phase.
            fa/fb, fs/fs2/fh, fd/fd2: vy() as a later ARGUMENT of root / substr / date_add (points inside an argument
            list, same overload, different values), pairs on all three configurations.
            tagg / tagg2 / tplain are passed AS TEXT (same text in both threads), as pairs only.
@@ -187,6 +190,11 @@ def _ledger(n1, n2, n3, eur_account):
       2020-01-04 * "n3"
         {eur_account}  {n3} EUR
         Income:X -{n3} EUR
+      2020-01-02 price EUR {n1}.25 USD
+      2020-01-04 price EUR {n2}.5 USD
+      2020-01-02 note Assets:A "note {n1}"
+      2020-01-04 note Assets:B "note {n3}"
+      2020-01-03 event "location" "L{n2}"
     """)
 
 
@@ -272,9 +280,36 @@ ARG_MENU = {
     'fd2': ("SELECT date_add(date, vy(7)) AS d WHERE account ~ 'Income'", None, ()),
 }
 ARG_PAIRS = [(cfg, p) for cfg in ('shared', 'separate', 'different') for p in (('fa', 'fb'), ('fs', 'fs2'), ('fs', 'fh'), ('fd', 'fd2'))]
+# Worker styles.  'conn': cur = conn.execute(stmt) -- the Connection shortcut -- then a scheduling point, description,
+# a point, fetchone(), a point, fetchall(): another thread can run between a thread's execute() and its reading of the
+# cursor it got back.  'cursor': the same reads and points on conn.cursor().execute(stmt).  Default (all other
+# statements): conn.cursor().execute() + fetchall() + description without harness points in between.
+CURSOR_MENU = {
+    'xa': ("SELECT account, number WHERE account ~ 'Assets:A'", None, ()),
+    'xb': ("SELECT narration, date WHERE account ~ 'Income'", None, ()),
+    'xc': ("SELECT account, currency WHERE account ~ 'Assets:B|Income'", None, ()),
+}
+STYLE = {'xa': 'conn', 'xb': 'conn', 'xc': 'cursor'}
+CURSOR_PAIRS = [(cfg, p) for cfg in ('shared',) for p in (('xa', 'xa'), ('xa', 'xb'), ('xa', 'xc'), ('xc', 'xc'))] + \
+               [('separate', ('xa', 'xb'))]
+# The generic directive tables of the beancount source (#transactions, #prices, #notes, ...): vy() gives a point
+# between the rows of a scan.  After the concurrent phase every statement is re-run serially on its connection and
+# must still give the fresh result (POST_CHECK: nothing the concurrent scans left behind may pollute later queries).
+TABLE_MENU = {
+    'tx': ("SELECT date, vy(1) AS y, narration FROM #transactions", None, ()),
+    'tx2': ("SELECT narration, vy(1) AS y FROM #transactions WHERE vy(2) = 2 AND date > 2020-01-02", None, ()),
+    'pr': ("SELECT date, vy(1) AS y, currency, amount FROM #prices", None, ()),
+    'pr2': ("SELECT currency, vy(1) AS y FROM #prices WHERE date > 2020-01-02", None, ()),
+    'nt': ("SELECT date, vy(1) AS y, account, comment FROM #notes", None, ()),
+}
+TABLE_PAIRS = [(cfg, p) for cfg in ('shared',) for p in (('tx', 'tx'), ('tx', 'tx2'), ('pr', 'pr'), ('pr', 'pr2'), ('nt', 'nt'),
+                                                         ('tx', 'pr'))] + \
+              [(cfg, p) for cfg in ('separate', 'different') for p in (('tx', 'tx2'), ('pr', 'pr2'))]
 MENU.update(FROM_MENU)
 MENU.update(TEMPLATE_MENU)
 MENU.update(ARG_MENU)
+MENU.update(CURSOR_MENU)
+MENU.update(TABLE_MENU)
 TEXT_PAIRS = [('tagg', 'tagg'), ('tagg', 'tagg2'), ('tagg', 'tplain'), ('tplain', 'tplain')]
 CANARY = ('canary', 'canary')
 MENU['canary'] = ("SELECT c FROM #canary", None, ())      # not part of IDS: explored separately, see run()
@@ -431,20 +466,48 @@ class Item:
                     asts[sid] = MENU[sid][0]            # the text itself: execute() parses it
                 else:
                     asts[sid] = copy_ast(e['pristine'][sid]) if e['has_ph'][sid] else e['ast'][sid]
-        return [self._body(conns[i], asts[sid], params_for(sid, i, e), sid in PARSE_MENU) for i, sid in enumerate(self.ids)]
+        # kept for the serial re-run after the concurrent phase (post_check)
+        self.last = [(conns[i], asts[sid], params_for(sid, i, e)) for i, sid in enumerate(self.ids)]
+        return [self._body(conns[i], asts[sid], params_for(sid, i, e), sid in PARSE_MENU, STYLE.get(sid))
+                for i, sid in enumerate(self.ids)]
 
     @staticmethod
-    def _body(conn, stmt, params, parse_points=False):
+    def _body(conn, stmt, params, parse_points=False, style=None):
         def body():
             _parse_tl.on = parse_points
             try:
-                cur = conn.cursor()
-                cur.execute(stmt, params)
-                rows = cur.fetchall()
-                return Obs(cur.description, rows)
+                if style is None:
+                    cur = conn.cursor()
+                    cur.execute(stmt, params)
+                    rows = cur.fetchall()
+                    return Obs(cur.description, rows)
+                cur = conn.execute(stmt, params) if style == 'conn' else conn.cursor().execute(stmt, params)
+                sched.point(('cursor', 'executed'))
+                description = cur.description
+                sched.point(('cursor', 'description read'))
+                first = cur.fetchone()
+                sched.point(('cursor', 'fetchone done'))
+                rows = ([first] if first is not None else []) + cur.fetchall()
+                return Obs(description, rows)
             finally:
                 _parse_tl.on = False
         return body
+
+    def post_check(self, alone):
+        """Serial re-run of every statement on its connection of the LAST world, after its threads are done: must equal
+        the fresh result.  -> list of (fingerprint, what)."""
+        bad = []
+        for i, (conn, stmt, params) in enumerate(self.last):
+            try:
+                cur = conn.cursor()
+                cur.execute(stmt, params)
+                r = Obs(cur.description, cur.fetchall())
+            except Exception as exc:
+                r = sched.Exc(exc)
+            if okey(r) != okey(alone[i]):
+                bad.append((f'polluted:{self.ids[i]}', f'[{self.ids[i]}: {MENU[self.ids[i]][0]}] re-run serially on the same connection '
+                            f'AFTER the concurrent phase: got {otext(r)}, fresh result {otext(alone[i])}'))
+        return bad
 
     def serial(self):
         """acceptable[i] = observations of thread i over all serial orders; alone[i] = run from fresh state."""
@@ -542,12 +605,16 @@ def run_item(item, acc, on_violation=None):
     outkey = ('outcomes', item.mode, item.config, item.ids, item.bound)
     joint = lambda o: tuple(okey(r) for r in o.results)   # noqa: E731
 
+    post = all(sid in TABLE_MENU for sid in item.ids)
     best = {}     # fingerprint -> the KEEP_PER_FP simplest failing schedules of this work item [(rank, out, what)]
 
     def visit(out):
         acc.count('evaluations', len(out.results))
         acc.add(outkey, hash(joint(out)))
         bad = check_outcome(item, out, acceptable, alone)
+        if post:
+            acc.count('post_checks', len(item.ids))
+            bad += item.post_check(alone)
         if not bad:
             return
         acc.count('violating_schedules')
@@ -568,6 +635,8 @@ def run_item(item, acc, on_violation=None):
         for rank, out, what in lst:
             reps = sched.confirm(item.world, out, joint, times=2, record_tags=True, **kw)
             acc.count('confirm_replays', 2)
+            if fp.startswith('polluted:') and fp not in [f for f, _ in item.post_check(alone)]:
+                raise sched.HarnessError(f'{fp} after schedule {out.trace} did not reproduce in the replay')
             msg = (f'config={item.config} threads={list(item.ids)} points={item.mode} schedule(thread ids)={out.trace} '
                    f'({out.preemptions} preemption(s): {describe(reps[0])}): {what}')
             acc.add('viol', (rank[:-1], fp, msg, json.dumps(item.case(out, fp), sort_keys=True)))
@@ -648,8 +717,8 @@ def plan(ctx):
     pts.update({sid: count_points('yield', sid, seed) for sid in list(FROM_MENU) + list(TEMPLATE_MENU)})
     for config, ids in TEMPLATE_PAIRS + FROM_PAIRS:
         add('yield', config, ids, None, sched.interleavings(*[pts[s] + 1 for s in ids]), 20)
-    pts.update({sid: count_points('yield', sid, seed) for sid in ARG_MENU})
-    for config, ids in ARG_PAIRS:
+    pts.update({sid: count_points('yield', sid, seed) for sid in list(ARG_MENU) + list(CURSOR_MENU) + list(TABLE_MENU)})
+    for config, ids in ARG_PAIRS + CURSOR_PAIRS + TABLE_PAIRS:
         add('yield', config, ids, None, sched.interleavings(*[pts[s] + 1 for s in ids]), 600)
     for config in CONFIGS:
         for ids in pairs:
@@ -858,7 +927,7 @@ def _run(ctx):
                   '3 threads: all schedules with <= 2 preemptions for %d triples (shared and different configurations; the quick '
                   'subset in the separate configuration); text statements: all interleavings of %s incl. parse points; FROM-qualified and BALANCES/JOURNAL pairs: %s'
                   % (len(total.sets['items|yield|shared|2']), len(total.sets['items|yield|shared|3']), TEXT_PAIRS + PARSE_PAIRS,
-                     [f'{c}:{"+".join(i)}' for c, i in FROM_PAIRS + TEMPLATE_PAIRS + ARG_PAIRS]))
+                     [f'{c}:{"+".join(i)}' for c, i in FROM_PAIRS + TEMPLATE_PAIRS + ARG_PAIRS + CURSOR_PAIRS + TABLE_PAIRS]))
                  + ('; line granularity (sys.settrace, a point before every line of beanquery/*.py): all schedules with <= 1 '
                     'preemption for all pairs in the shared and different configurations; <= 2 preemptions with line points restricted to the modules '
                     'holding the shared state for %s (at most %d executions per sub-shard)'
@@ -879,6 +948,7 @@ def _run(ctx):
         'violating_schedules_by_fingerprint': {k.split('|', 1)[1]: v for k, v in total.n.items() if k.startswith('violating|')},
         'confirm_replays': total.n['confirm_replays'],
         'deadlocks': total.n['deadlocks'],
+        'post_phase_serial_reruns_compared': total.n['post_checks'],
         'history_dependent_tuples': sorted('%s:%s' % (c, '+'.join(i)) for c, i in total.sets.get('history_dependent', ())),
         'free_running_smoke_test_decides_nothing': smoke,
         'phase_wall_s': phases,
